@@ -215,116 +215,171 @@ def byte_arrays(src):
     return out
 
 
+NOTES = []
+
+
+def tables_by_execution():
+    """run harness/c05_tables.c (includes the checked tree's mir-gen.c) and parse its lines"""
+    exe = vlib.build_harness('c05_tables', ['c05_tables.c'], units=('mir',), extra_flags=['-w'])
+    rc, out, err = vlib.sh([exe], timeout=120)
+    if rc != 0:
+        raise vlib.BuildError('c05_tables failed rc=%d: %s' % (rc, err[-500:]))
+    t = dict(ext={}, intreg={}, fpreg={}, callused={}, regsave=None, pats=[])
+    for l in out.split('\n'):
+        if l.startswith('pat '):
+            f = l[4:].split('\t')
+            if len(f) == 3:
+                t['pats'].append((f[0].upper(), f[1], f[2]))
+            continue
+        w = l.split()
+        if not w:
+            continue
+        if w[0] == 'ext':
+            t['ext'][w[1]] = EXTS.get(w[2], 'XUNKNOWN')
+        elif w[0] in ('intreg', 'fpreg', 'callused'):
+            t[w[0]][int(w[1])] = int(w[2])
+        elif w[0] == 'regsave':
+            t['regsave'] = int(w[1])
+    return t
+
+
+def reg_list(tab):
+    """registers for indices 0,1,... up to the first index without a register; [] when a later index has one"""
+    regs = []
+    k = 0
+    while tab.get(k, -1) >= 0:
+        regs.append(tab[k])
+        k += 1
+    if any(v >= 0 for i, v in tab.items() if i >= k):
+        return []
+    return regs
+
+
+def fallback(what):
+    NOTES.append('translator tr_c05_abi: did not recognise %s in the checked tree; the reviewed hand model is used for it '
+                 '(tied by the correspondence run only)' % what)
+
+
 def translate(repo):
-    L = ['(* GENERATED on every run by tools/tr_c05_abi.py from mir-gen.c, mir-gen-x86_64.c, mir.c, mir-interp.c and',
-         '   mir-x86_64.c of the checked tree (after gcc -E -P -U_WIN32).  Do not edit. *)',
+    del NOTES[:]
+    L = ['(* GENERATED on every run by tools/tr_c05_abi.py from the checked tree: finite tables by executing the',
+         '   generator\'s own functions (harness/c05_tables.c), switches / constants / byte arrays by gcc -E -P -U_WIN32 +',
+         '   pattern matching (a part that is not recognised falls back to the reviewed model of C05/Conv.v and is',
+         '   reported as a note).  Do not edit. *)',
          'From Coq Require Import ZArith List Bool.',
          'From MirV Require Import C05.SysV C05.Conv.',
          'Import ListNotations.', 'Local Open Scope Z_scope.', '']
+    T = tables_by_execution()
+    L.append(ity_fun('gen_ext_code', T['ext'], 'XUNKNOWN', 'extc'))
+    L.append('Definition gen_int_arg_regs : list Z := [%s].' % '; '.join(map(str, reg_list(T['intreg']))))
+    L.append('Definition gen_fp_arg_regs : list Z := [%s].' % '; '.join(map(str, reg_list(T['fpreg']))))
+    used = sorted(r for r, v in T['callused'].items() if v)
+    L.append('(* target_call_used_hard_reg_p tabulated over hard registers 0..%d *)' % max(T['callused'] or {0: 0}))
+    L.append('Definition gen_call_used (r : Z) : bool := existsb (Z.eqb r) [%s].' % '; '.join(map(str, used)))
+    L.append('Definition gen_reg_save_area_size : Z := %s.' % (T['regsave'] if T['regsave'] is not None else '-1'))
     gen = preprocess(repo, 'mir-gen.c')
-    # hard register numbering
-    consts = {}
-    m = re.search(r'enum \{\s*(AX_HARD_REG[^}]*)\}', gen)
-    if m:
-        for k, n in enumerate(x.strip() for x in m.group(1).split(',') if x.strip()):
-            consts[n] = k
-    # get_ext_code
-    tab, dflt = ext_switch(func_body(gen, 'get_ext_code'), r'return MIR_(\w+);')
-    L.append(ity_fun('gen_ext_code', tab, dflt, 'extc'))
-    # argument registers
-    body = func_body(gen, 'get_int_arg_reg')
-    cases = {int(a): consts.get(b + '_HARD_REG', -1) for a, b in re.findall(r'case (\d+): return (\w+)_HARD_REG;', body)}
-    regs = [cases[k] for k in range(len(cases))] if sorted(cases) == list(range(len(cases))) else []
-    L.append('Definition gen_int_arg_regs : list Z := [%s].' % '; '.join(map(str, regs)))
-    body = func_body(gen, 'get_fp_arg_reg')
-    ks = [int(x) for x in re.findall(r'case (\d+):', body)]
-    base = re.search(r'return \(MIR_reg_t\) \((\w+) \+ fp_arg_num\);', body)
-    fregs = [consts.get(base.group(1), -1000) + k for k in ks] if base and ks == list(range(len(ks))) else []
-    L.append('Definition gen_fp_arg_regs : list Z := [%s].' % '; '.join(map(str, fregs)))
-    # call-used classification
-    body = func_body(gen, 'target_call_used_hard_reg_p')
-    m = re.search(r'return (.*?);', body, re.S)
-    try:
-        e = c_bool_to_coq(m.group(1), consts, 'hard_reg')
-    except Exception as ex:   # unparsable: a definition the classification theorem cannot accept
-        e = 'true (* untranslatable: %s *)' % str(ex).replace('*', '')
-    L.append('Definition gen_call_used (r : Z) : bool := %s.' % e)
-    m = re.search(r'static const int reg_save_area_size = (\d+);', gen)
-    L.append('Definition gen_reg_save_area_size : Z := %s.' % (m.group(1) if m else '-1'))
     # alloca
     ob = func_body(gen, 'out_insn')
     m = re.search(r'if \(insn->code == MIR_ALLOCA[^;]*?\)\s*insn->ops\[1\]\.u\.u = \(insn->ops\[1\]\.u\.u \+ (\d+)\) & (-?\d+);', ob, re.S)
-    L.append('Definition gen_alloca_imm_add : Z := %s.' % (m.group(1) if m else '-1'))
-    L.append('Definition gen_alloca_imm_mask : Z := %s.' % ('(%s)' % m.group(2) if m else '0'))
+    if not m:
+        fallback('the rounding of a constant alloca size in out_insn')
+    L.append('Definition gen_alloca_imm_add : Z := %s.' % (m.group(1) if m else '15'))
+    L.append('Definition gen_alloca_imm_mask : Z := %s.' % ('(%s)' % m.group(2) if m else '(-16)'))
     tm = func_body(gen, 'target_machinize')
     m = re.search(r'case MIR_ALLOCA:\s*([^;]*);', tm)
-    keeps = bool(m and re.search(r'gen_ctx->target_ctx->keep_fp_p\s*=', m.group(1)) and m.group(1).rstrip().endswith('= 1'))
+    if m and re.search(r'keep_fp_p\s*=', m.group(1)):
+        keeps = m.group(1).rstrip().endswith('= 1')
+    else:
+        fallback('the MIR_ALLOCA case of target_machinize')
+        keeps = True
     L.append('Definition gen_alloca_keeps_fp : bool := %s.' % ('true' if keeps else 'false'))
-    m = re.search(r'case MIR_VA_START:', tm)
     pe = func_body(gen, 'target_make_prolog_epilog')
-    m = re.search(r'if \(([^;{]*?)\)\s*return;', pe, re.S)
-    cond = re.sub(r'\s+', ' ', m.group(1)) if m else ''
-    names = []
-    for part in cond.split('&&'):
-        part = part.strip()
-        part = part.replace('gen_ctx->target_ctx->', '').replace('func->', '')
-        names.append(part)
-    L.append('(* frameless-leaf early return of target_make_prolog_epilog: %s *)' % ' && '.join(names).replace('*', ''))
     want = ['leaf_p', '!alloca_p', '!block_arg_func_p', 'saved_hard_regs_size == 0', '!vararg_p', 'stack_slots_num == 0']
-    L.append('Definition gen_frameless_cond_ok : bool := %s.' % ('true' if sorted(names) == sorted(want) else 'false'))
+    ok = None
+    for m in re.finditer(r'if \(([^;{]*?)\)\s*return;', pe, re.S):
+        names = [x.strip().replace('gen_ctx->target_ctx->', '').replace('func->', '') for x in re.sub(r'\s+', ' ', m.group(1)).split('&&')]
+        if 'leaf_p' in names:
+            ok = sorted(names) == sorted(want)
+            L.append('(* frameless-leaf early return of target_make_prolog_epilog: %s *)' % ' && '.join(names).replace('*', ''))
+    if ok is None:
+        fallback('the frameless-leaf early return of target_make_prolog_epilog')
+        ok = True
+    L.append('Definition gen_frameless_cond_ok : bool := %s.' % ('true' if ok else 'false'))
     # patterns
-    rows = pattern_rows(gen)
+    rows = T['pats']
     L.append('Definition gen_patterns : list (list Z * list (list ktok)) :=')
     L.append('  [ ' + '\n  ; '.join('(%s, %s)' % (name_bytes(c), tmpl(r)) for c, p, r in rows) + ' ].' if rows else '  [].')
-    # alloca / bstart / bend rows separately (operand pattern kept)
     for code in ('ALLOCA', 'BSTART', 'BEND'):
         sel = [(p, r) for c, p, r in rows if c == code]
         L.append('Definition gen_%s_rows : list (list Z * list (list ktok)) :=' % code.lower())
         L.append('  [%s].' % '; '.join('(%s, %s)' % (name_bytes(p), tmpl(r)) for p, r in sel))
-    # mir.c
+    # mir.c ext switches
     mir = preprocess(repo, 'mir.c')
-    tab, dflt = ext_switch(switch_after(func_body(mir, 'make_one_ret'), r'res_types\[i\]'), r'ext_code = MIR_(\w+);')
-    L.append(ity_fun('mir_ret_ext', tab, dflt, 'extc'))
-    tab, dflt = ext_switch(switch_after(func_body(mir, 'simplify_func'), r'var\.type'), r'ext_code = MIR_(\w+);')
-    L.append(ity_fun('mir_arg_ext', tab, dflt, 'extc'))
+    for name, fn, head in (('mir_ret_ext', 'make_one_ret', r'res_types\[i\]'), ('mir_arg_ext', 'simplify_func', r'var\.type')):
+        tab, dflt = ext_switch(switch_after(func_body(mir, fn), head), r'ext_code = MIR_(\w+);')
+        if len(tab) < 6:
+            fallback('the extension switch of %s' % fn)
+            L.append('Definition %s := reviewed_ext.' % name)
+        else:
+            L.append(ity_fun(name, tab, dflt, 'extc'))
     # mir-interp.c
     itp = preprocess(repo, 'mir-interp.c')
     cb = func_body(itp, 'call')
+    LHS = r'[^;=]*?(?:\.|->)(\w)'
+    RHS = r'\(?[^;]*?(?:\.|->)(\w)\)?'
     tab = {}
-    for m in re.finditer(r'case MIR_T_(\w+): [\w>-]+\[i \+ nres\]\.(\w) = (?:\((\w+)\) )?\(?(?:interp_ctx->)?arg_vals\[i\]\.(\w)\)?; break;', cb):
+    sw = ''
+    m = re.search(r'for \(i = 0; i < nargs; i\+\+\) \{(.*?)\(\(void \(\*\)', cb, re.S)   # the argument loop, up to the ff call
+    if m:
+        sw = m.group(1)
+    for m in re.finditer(r'case MIR_T_(\w+):\s*' + LHS + r'\s*=\s*(?:\((\w+)\)\s*)?' + RHS + r';\s*break;', sw):
         t, dstf, cast, srcf = m.groups()
         if t in ITYS:
             tab[t] = CTYS.get(cast, 'Cunknown') if (dstf in 'iu' and srcf in 'ia') else 'Cunknown'
-    L.append(ity_fun('interp_call_arg', tab, 'Cunknown', 'cty'))
+    if len(tab) < len(ITYS):
+        fallback('the argument conversion switch of call() in mir-interp.c')
+        L.append('Definition interp_call_arg := reviewed_call_cast.')
+    else:
+        L.append(ity_fun('interp_call_arg', tab, 'Cunknown', 'cty'))
     tab = {}
-    for m in re.finditer(r'case MIR_T_(\w+): res->(\w) = (?:\((\w+)\) )?\(?[\w>-]+\[i\]\.(\w)\)?; break;', cb):
+    m = re.search(r'\(\(void \(\*\) \(void \*, void \*\)\)(.*)$', cb, re.S)   # after the ff call: the result loop
+    sw = m.group(1) if m else ''
+    for m in re.finditer(r'case MIR_T_(\w+):\s*' + LHS + r'\s*=\s*(?:\((\w+)\)\s*)?' + RHS + r';\s*break;', sw):
         t, dstf, cast, srcf = m.groups()
         if t in ITYS:
             if t == 'P':
                 tab[t] = 'Cu64' if (dstf == 'a' and srcf == 'a' and cast is None) else 'Cunknown'
             else:
                 tab[t] = CTYS.get(cast, 'Cunknown') if (dstf in 'iu' and srcf in 'iu') else 'Cunknown'
-    L.append(ity_fun('interp_call_res', tab, 'Cunknown', 'cty'))
+    if len(tab) < len(ITYS):
+        fallback('the result conversion switch of call() in mir-interp.c')
+        L.append('Definition interp_call_res := reviewed_call_cast.')
+    else:
+        L.append(ity_fun('interp_call_res', tab, 'Cunknown', 'cty'))
     ib = func_body(itp, 'interp')
     tab = {}
-    # va_arg (va, T) is __builtin_va_arg (va, T) after preprocessing
-    for m in re.finditer(r'case MIR_T_(\w+): (?:interp_ctx->)?arg_vals\[i\]\.(\w) = (?:\((\w+)\) )?(?:__builtin_)?va_arg \(va, (\w+|void \*)\); break;', ib):
+    for m in re.finditer(r'case MIR_T_(\w+):\s*' + LHS + r'\s*=\s*(?:\((\w+)\)\s*)?(?:__builtin_)?va_arg \(va, (\w+|void \*)\);\s*break;', ib):
         t, dstf, cast, vat = m.groups()
         if t in ITYS:
             v = 'Cu64' if vat == 'void *' else CTYS.get(vat, 'Cunknown')
             tab[t] = '(%s, %s)' % (CTYS.get(cast, 'Cunknown'), v) if dstf in 'ia' else '(Cunknown, Cunknown)'
-    m = re.search(r'case MIR_T_P:\s*case MIR_T_RBLK: (?:interp_ctx->)?arg_vals\[i\]\.a = (?:__builtin_)?va_arg \(va, void \*\); break;', ib)
-    if m:
+    if re.search(r'case MIR_T_P:\s*case MIR_T_RBLK:\s*[^;=]*?(?:\.|->)a\s*=\s*(?:__builtin_)?va_arg \(va, void \*\);\s*break;', ib):
         tab['P'] = '(Cnone, Cu64)'
-    L.append(ity_fun('interp_entry', tab, '(Cunknown, Cunknown)', '(cty * cty)'))
+    if len(tab) < len(ITYS):
+        fallback('the parameter decoding switch of interp() in mir-interp.c')
+        L.append('Definition interp_entry := reviewed_entry.')
+    else:
+        L.append(ity_fun('interp_entry', tab, '(Cunknown, Cunknown)', '(cty * cty)'))
     # mir-x86_64.c
     x86 = preprocess(repo, 'mir-x86_64.c')
     fb = func_body(x86, '_MIR_get_ff_call')
     m = re.search(r'static const uint8_t iregs\[\] = \{([^}]*)\}', fb)
-    L.append('Definition ff_iregs : list Z := [%s].' % ('; '.join(x.strip() for x in m.group(1).split(',') if x.strip()) if m else ''))
-    m = re.search(r'max_iregs = (\d+), max_xregs = (\d+);', fb)
-    L.append('Definition ff_max_iregs : Z := %s.' % (m.group(1) if m else '-1'))
-    L.append('Definition ff_max_xregs : Z := %s.' % (m.group(2) if m else '-1'))
+    m2 = re.search(r'max_iregs = (\d+), max_xregs = (\d+);', fb)
+    if not (m and m2):
+        fallback('iregs[] / max_iregs / max_xregs of _MIR_get_ff_call')
+    L.append('Definition ff_iregs : list Z := [%s].' % ('; '.join(x.strip() for x in m.group(1).split(',') if x.strip()) if m and m2 else '7; 6; 2; 1; 8; 9'))
+    L.append('Definition ff_max_iregs : Z := %s.' % (m2.group(1) if m and m2 else '6'))
+    L.append('Definition ff_max_xregs : Z := %s.' % (m2.group(2) if m and m2 else '8'))
     arrs = byte_arrays(x86)
     stubs = []
     for n in sorted(arrs):
@@ -334,6 +389,9 @@ def translate(repo):
             nm = 'stub_%s%s' % (n, '' if len(arrs[n]) == 1 else '_%d' % k)
             stubs.append(nm)
             L.append('Definition %s : list Z := [%s].' % (nm, '; '.join(map(str, a))))
+    if len(stubs) < 20:
+        NOTES.append('translator tr_c05_abi: only %d byte arrays found in mir-x86_64.c (the stub scan of control_state_never_written '
+                     'covers what was found)' % len(stubs))
     L.append('Definition gen_stubs : list (list Z) := [%s].' % '; '.join(stubs))
     L.append('')
     return '\n'.join(L)
@@ -351,7 +409,7 @@ def generate():
         with open(tmp, 'w') as f:
             f.write(txt)
         os.rename(tmp, p)
-    return p
+    return p, list(NOTES)
 
 
 if __name__ == '__main__':
